@@ -195,7 +195,9 @@ CLAIMED = {
                      "cases give a world, its clone and its round trip the same operations (clear, insert, extend, remove, shrink) "
                      "and require the same answers (identifiers issued), the same entities and the same free lists after each "
                      "(finding F6 -- clear freed the identifiers in the order of the address-keyed table -- repaired by /repo 290889e; "
-                     "the model sorts the reported table order on a source-derived fact).",
+                     "the model sorts the reported table order on a source-derived fact, and C06_clear_independent_of_table_order proves "
+                     "the outcome of clear the same for every permutation of the table, for every registry size). The identifier "
+                     "bytes written decode to the shape they were written for, for every registry size (C06_identifier_bytes_roundtrip).",
                 technique="Rocq proof (round-trip + invariant) + differential execution of serde_assert round trips",
                 ref="DESIGN.md §7 C06"),
     "C10": dict(engine="world-histories",
